@@ -12,6 +12,7 @@ import (
 	"math/big"
 	"net"
 	"net/http"
+	"net/http/httptest"
 	"net/url"
 	"strconv"
 	"strings"
@@ -57,6 +58,37 @@ func vfExtValue(cert *x509.Certificate) []byte {
 		}
 	}
 	return nil
+}
+
+func vfBytesStr(b []byte) string {
+	if len(b) == 0 {
+		return "_"
+	}
+	return fmt.Sprintf("%x", b)
+}
+
+// what encoding/asn1 makes of an extension value, in the driver's text form
+func vfParseExt(value []byte) string {
+	var fams []certgen.IpAdressFamily
+	if _, err := asn1.Unmarshal(value, &fams); err != nil {
+		return "unparsable"
+	}
+	var fs []string
+	for _, f := range fams {
+		var as []string
+		for _, a := range f.Addresses {
+			as = append(as, fmt.Sprintf("%d:%s", a.BitLength, vfBytesStr(a.Bytes)))
+		}
+		l := "-"
+		if len(as) > 0 {
+			l = strings.Join(as, ",")
+		}
+		fs = append(fs, vfBytesStr(f.AddressFamily)+"="+l)
+	}
+	if len(fs) == 0 {
+		return "P-"
+	}
+	return "P" + strings.Join(fs, ";")
 }
 
 func vfNetsStr(l []net.IPNet) string {
@@ -138,11 +170,32 @@ func TestVerifC11(t *testing.T) {
 	for _, line := range io.ops {
 		f := strings.Fields(line)
 		switch {
-		case len(f) == 6 && f[0] == "ref":
+		case (len(f) == 6 || len(f) == 8) && f[0] == "ref":
 			addr, ok := vfUnhex(f[4])
 			if !ok || len(f[5]) != 3 || (f[1] != "1" && f[1] != "2") {
 				io.emit("bad-op")
 				continue
+			}
+			// optional: extra form parameters of the request (urlencoded, hex) and addresses from which a
+			// refreshed certificate is then used (hex, ';'-separated)
+			extraForm := url.Values{}
+			var probes []string
+			if len(f) == 8 {
+				fs, ok1 := vfUnhex(f[6])
+				extraForm, err = url.ParseQuery(fs)
+				if !ok1 || err != nil {
+					io.emit("bad-op")
+					continue
+				}
+				if f[7] != "-" {
+					for _, ph := range strings.Split(f[7], ";") {
+						pa, ok := vfUnhex(ph)
+						if !ok {
+							pa = "bad-hex"
+						}
+						probes = append(probes, pa)
+					}
+				}
 			}
 			var leaf *x509.Certificate
 			switch f[2] {
@@ -212,34 +265,83 @@ func TestVerifC11(t *testing.T) {
 			}
 			state.Config.Base.AutomationUsers = nil
 			if f[5][1] == '1' {
-				state.Config.Base.AutomationUsers = []string{"role1"}
+				state.Config.Base.AutomationUsers = []string{"role1", "role2"}
 			}
 			// refresh
-			form := url.Values{}
-			form.Add("pubkey", b64public)
-			req, _ := http.NewRequest("POST", refreshRoleRequestingCertPath, strings.NewReader(form.Encode()))
-			req.Header.Add("Content-Length", strconv.Itoa(len(form.Encode())))
-			req.Header.Add("Content-Type", "application/x-www-form-urlencoded")
-			req.RemoteAddr = addr
-			req.TLS = cs
-			rr, p := vfServe(state.refreshRoleRequestingCertGenHandler, req)
-			refresh := "PANIC - - - -"
-			if p == nil {
-				refresh = vfIssued(rr, rr.Code, rr.Body.Bytes(), userPub)
+			doRefresh := func(cs *tls.ConnectionState, from string, extra url.Values) (*httptest.ResponseRecorder, string) {
+				form := url.Values{}
+				form.Add("pubkey", b64public)
+				for k, vs := range extra {
+					for _, v := range vs {
+						form.Add(k, v)
+					}
+				}
+				req, _ := http.NewRequest("POST", refreshRoleRequestingCertPath, strings.NewReader(form.Encode()))
+				req.Header.Add("Content-Length", strconv.Itoa(len(form.Encode())))
+				req.Header.Add("Content-Type", "application/x-www-form-urlencoded")
+				req.RemoteAddr = from
+				req.TLS = cs
+				rr, p := vfServe(state.refreshRoleRequestingCertGenHandler, req)
+				if p != nil {
+					return nil, "PANIC - - - -"
+				}
+				return rr, vfIssued(rr, rr.Code, rr.Body.Bytes(), userPub)
 			}
-			// certgen with the same credential
-			req2, err := createKeyBodyRequest("POST", "/certgen/role1?type=x509", testUserPEMPublicKey, "")
-			if err != nil {
-				t.Fatal(err)
+			doCertgen := func(cs *tls.ConnectionState, from string, extra url.Values) string {
+				target := "/certgen/role1?type=x509"
+				for k, vs := range extra {
+					for _, v := range vs {
+						target += "&" + url.QueryEscape(k) + "=" + url.QueryEscape(v)
+					}
+				}
+				req2, err := createKeyBodyRequest("POST", target, testUserPEMPublicKey, "")
+				if err != nil {
+					t.Fatal(err)
+				}
+				req2.RemoteAddr = from
+				req2.TLS = cs
+				rr2, p2 := vfServe(state.certGenHandler, req2)
+				if p2 != nil {
+					return "PANIC - - - -"
+				}
+				return vfIssued(rr2, rr2.Code, rr2.Body.Bytes(), userPub)
 			}
-			req2.RemoteAddr = addr
-			req2.TLS = cs
-			rr2, p2 := vfServe(state.certGenHandler, req2)
-			cg := "PANIC - - - -"
-			if p2 == nil {
-				cg = vfIssued(rr2, rr2.Code, rr2.Body.Bytes(), userPub)
+			rr, refresh := doRefresh(cs, addr, extraForm)
+			cgExtra := url.Values{}
+			for k, vs := range extraForm { // certgen: everything but its own parameters
+				if k != "type" && k != "duration" {
+					cgExtra[k] = vs
+				}
 			}
-			io.emit("peer=%s refresh=%s certgen=%s", vfPeerClass(addr), strings.ReplaceAll(refresh, " ", "|"), strings.ReplaceAll(cg, " ", "|"))
+			cg := doCertgen(cs, addr, cgExtra)
+			parse := ""
+			if f[2] == "raw" {
+				parse = " parse=" + vfParseExt(vfExtValue(leaf))
+			}
+			// use the refreshed certificate: what does it open, and from where?
+			use := ""
+			if rr != nil && rr.Code == 200 && len(probes) > 0 {
+				var us []string
+				if block, _ := pem.Decode(rr.Body.Bytes()); block != nil {
+					if newLeaf, err := x509.ParseCertificate(block.Bytes); err == nil {
+						nchain := []*x509.Certificate{newLeaf}
+						if f[1] == "2" {
+							nchain = append(nchain, caCert)
+						}
+						ncs := &tls.ConnectionState{VerifiedChains: [][]*x509.Certificate{nchain},
+							PeerCertificates: []*x509.Certificate{newLeaf}}
+						for _, pa := range probes {
+							_, r2 := doRefresh(ncs, pa, nil)
+							c2 := doCertgen(ncs, pa, nil)
+							us = append(us, vfPeerClass(pa)+"~"+strings.Fields(r2)[0]+"/"+strings.Fields(c2)[0])
+						}
+					}
+				}
+				if len(us) > 0 {
+					use = " use=" + strings.Join(us, ",")
+				}
+			}
+			io.emit("peer=%s refresh=%s certgen=%s%s%s", vfPeerClass(addr), strings.ReplaceAll(refresh, " ", "|"), strings.ReplaceAll(cg, " ", "|"), parse, use)
 		case len(f) == 2 && f[0] == "get":
 			cidrs, ok := vfUnhex(f[1])
 			if !ok {
